@@ -15,7 +15,7 @@ import (
 func init() {
 	register("C12", c12Const, c12Index, c12Loop, c12Assembly, c12AbortFirst,
 		// the chain starts at handler 0 only if the context starts at its rest index
-		c09Ctor, c12Fresh, c12GroupFresh)
+		c09Ctor, c12Fresh, c12GroupFresh, c12RouteFresh)
 }
 
 const pkgRoute = Mod + "/pkg/route"
